@@ -27,6 +27,7 @@
   (of an expression, or the read of an uninitialised object: 6.3.2.1p2 / 6.2.4p6) or fuel exhausted.
 -/
 import CprocVerif.Model.CSem
+import CprocVerif.Model.Tree
 
 namespace CprocVerif.CSem2
 open CprocVerif.CSem CprocVerif.CInt
@@ -63,6 +64,13 @@ inductive Stmt where
   | for_ (c : Option Expr) (step b : Stmt)
   | break_
   | continue_
+  /-- `switch (e) body`; `e` already promoted (`exprpromote`) -/
+  | switch_ (e : Expr) (b : Stmt)
+  /-- `case u:` — a label; `u` is the value of the constant expression as `intconstexpr` returns it
+      (an unsigned 64-bit number, negative values sign-extended) -/
+  | case_ (u : Nat)
+  /-- `default:` -/
+  | default_
   deriving Repr, Inhabited
 
 inductive Outcome where
@@ -81,6 +89,48 @@ def incTy (t : Ty) : Ty := if t.size < 4 then .int else t
 def incdecVal (cs : Bool) (t : Ty) (inc : Bool) (v : Int) : Option Int :=
   (bin (if inc then .add else .sub) ((incTy t).intTy cs) v 1).map
     (conv ((incTy t).intTy cs) (t.intTy cs))
+
+/-- The statement that follows the first label satisfying `p` on the spine of a `switch` body (the
+    statements reachable through `;`-sequencing and compound statements; the sub-statements of `if`,
+    loops and nested `switch`es are not searched). -/
+def after (p : Stmt → Bool) : Stmt → Option Stmt
+  | .seq a b =>
+    match after p a with
+    | some a' => some (.seq a' b)
+    | none => after p b
+  | st => if p st then some .skip else none
+
+/-- `case u:` matches the controlling value `v` of (promoted) type `t`: the constant converted to `t`
+    equals `v` (6.8.4.2p5). -/
+def isCase (cs : Bool) (t : Ty) (v : Int) : Stmt → Bool
+  | .case_ u => wrap (t.intTy cs) (u : Int) == v
+  | _ => false
+
+def isDefault : Stmt → Bool
+  | .default_ => true
+  | _ => false
+
+/-- Where `switch` continues: after the matching `case`, else after `default`, else nowhere. -/
+def pick (cs : Bool) (t : Ty) (v : Int) (b : Stmt) : Option Stmt :=
+  match after (isCase cs t v) b with
+  | some x => some x
+  | none => after isDefault b
+
+/-- The variables declared in a statement (at any depth). -/
+def declIdx : Stmt → List Nat
+  | .decl i _ _ => [i]
+  | .seq a b => declIdx a ++ declIdx b
+  | .ite _ a => declIdx a
+  | .itee _ a b => declIdx a ++ declIdx b
+  | .while_ _ b => declIdx b
+  | .dowhile b _ => declIdx b
+  | .for_ _ st b => declIdx st ++ declIdx b
+  | .switch_ _ b => declIdx b
+  | _ => []
+
+/-- The objects whose lifetime starts with the statement become indeterminate (6.2.4p6) — a jump to a
+    `case` label may bypass their declarations. -/
+def clear (s : Store) (l : List Nat) : Store := l.foldl (fun s i => s.set i none) s
 
 /-- Big-step execution with fuel (one unit per nesting level / loop iteration). -/
 def exec (cs : Bool) : Nat → Store → Stmt → Option Outcome
@@ -136,6 +186,16 @@ def exec (cs : Bool) : Nat → Store → Stmt → Option Outcome
       | o => o
   | _ + 1, s, .break_ => some (.brk s)
   | _ + 1, s, .continue_ => some (.cont s)
+  | _ + 1, s, .case_ _ => some (.normal s)
+  | _ + 1, s, .default_ => some (.normal s)
+  | n + 1, s, .switch_ e b =>
+    (evalE cs s e).bind fun v =>
+      match pick cs e.ty v b with
+      | none => some (.normal (clear s (declIdx b)))
+      | some b' =>
+        match exec cs n (clear s (declIdx b)) b' with
+        | some (.brk s') => some (.normal s')
+        | o => o
 
 /-- A function of the fragment.  `locals` are the types of the block-scope objects in the order of
     their declarations. -/
@@ -174,14 +234,48 @@ def Stmt.isSimple : Stmt → Bool
   | .skip | .assign .. | .incdec .. | .expr _ => true
   | _ => false
 
+/-- No `case`/`default` label outside a nested `switch`. -/
+def Stmt.labelFree : Stmt → Bool
+  | .case_ _ | .default_ => false
+  | .seq a b => a.labelFree && b.labelFree
+  | .ite _ a => a.labelFree
+  | .itee _ a b => a.labelFree && b.labelFree
+  | .while_ _ b => b.labelFree
+  | .dowhile b _ => b.labelFree
+  | .for_ _ st b => st.labelFree && b.labelFree
+  | _ => true
+
+/-- The statement begins with a `case`/`default` label (a `switch` body must: code before the first
+    label is unreachable). -/
+def Stmt.startsLabel : Stmt → Bool
+  | .case_ _ | .default_ => true
+  | .seq a _ => a.startsLabel
+  | _ => false
+
+/-- The constants of the `case` labels on the spine of a `switch` body, in order. -/
+def caseVals : Stmt → List Nat
+  | .case_ u => [u]
+  | .seq a b => caseVals a ++ caseVals b
+  | _ => []
+
+def countDefault : Stmt → Nat
+  | .default_ => 1
+  | .seq a b => countDefault a + countDefault b
+  | _ => 0
+
 /-- Well-formedness of a statement in a function with variable types `vtys` and return type `ret`
     when `nd` variables have been declared so far; result: the number declared afterwards.
     * variables are used after their declaration and with their declared type (`Expr.wt` against
       the first `nd` types); declarations are numbered in textual order;
     * both sides of an assignment have the variable's type, the operand of `return` the return type
       (`exprassign` inserted the casts);
-    * `break`/`continue` only inside a loop;
-    * no statement follows a `return`/`break`/`continue` in the same block (no unreachable code: there
+    * `break` only inside a loop or `switch`, `continue` only inside a loop (the two flags); `case`/`default`
+      only on the spine of a `switch` body (`labelFree` for the sub-statements of `if` and loops and for
+      the function body); that body begins with a label; the `case` constants of one `switch` are pairwise
+      different after `switchcase`'s conversion to the controlling type (`Tree.caseKey`), at most one
+      `default`; the controlling expression has a promoted type (`exprpromote`);
+    * no statement other than a `case`/`default` label follows a `return`/`break`/`continue` in the same block
+      (no unreachable code: there
       `funcinst` opens a block `dead.N`, which this model places differently). -/
 def optWt (vtys : List Ty) (t : Option Ty) : Option Expr → Bool
   | none => true
@@ -189,39 +283,51 @@ def optWt (vtys : List Ty) (t : Option Ty) : Option Expr → Bool
     | none => true
     | some t => e.ty == t) && e.wt vtys
 
-def Stmt.wt (vtys : List Ty) (ret : Ty) : Bool → Nat → Stmt → Option Nat
-  | _, nd, .skip => some nd
-  | _, nd, .decl i t init =>
+def Stmt.wt (vtys : List Ty) (ret : Ty) : Bool → Bool → Nat → Stmt → Option Nat
+  | _, _, nd, .skip => some nd
+  | _, _, nd, .decl i t init =>
     if i = nd ∧ vtys[i]? = some t ∧ optWt (vtys.take (nd + 1)) (some t) init = true then some (nd + 1)
     else none
-  | _, nd, .assign i t e =>
+  | _, _, nd, .assign i t e =>
     if i < nd ∧ vtys[i]? = some t ∧ e.ty = t ∧ e.wt (vtys.take nd) = true then some nd else none
-  | _, nd, .incdec i t _ =>
+  | _, _, nd, .incdec i t _ =>
     if i < nd ∧ vtys[i]? = some t then some nd else none
-  | _, nd, .expr e => if e.wt (vtys.take nd) = true then some nd else none
-  | _, nd, .ret e => if e.ty = ret ∧ e.wt (vtys.take nd) = true then some nd else none
-  | lp, nd, .seq a b =>
-    if a.endsJump then none else (Stmt.wt vtys ret lp nd a).bind fun n1 => Stmt.wt vtys ret lp n1 b
-  | lp, nd, .ite c a =>
-    if c.wt (vtys.take nd) = true then Stmt.wt vtys ret lp nd a else none
-  | lp, nd, .itee c a b =>
-    if c.wt (vtys.take nd) = true then
-      (Stmt.wt vtys ret lp nd a).bind fun n1 => Stmt.wt vtys ret lp n1 b
+  | _, _, nd, .expr e => if e.wt (vtys.take nd) = true then some nd else none
+  | _, _, nd, .ret e => if e.ty = ret ∧ e.wt (vtys.take nd) = true then some nd else none
+  | lb, lc, nd, .seq a b =>
+    if a.endsJump && !b.startsLabel then none
+    else (Stmt.wt vtys ret lb lc nd a).bind fun n1 => Stmt.wt vtys ret lb lc n1 b
+  | lb, lc, nd, .ite c a =>
+    if c.wt (vtys.take nd) = true ∧ a.labelFree = true then Stmt.wt vtys ret lb lc nd a else none
+  | lb, lc, nd, .itee c a b =>
+    if c.wt (vtys.take nd) = true ∧ a.labelFree = true ∧ b.labelFree = true then
+      (Stmt.wt vtys ret lb lc nd a).bind fun n1 => Stmt.wt vtys ret lb lc n1 b
     else none
-  | _, nd, .while_ c b =>
-    if c.wt (vtys.take nd) = true then Stmt.wt vtys ret true nd b else none
-  | _, nd, .dowhile b c =>
-    (Stmt.wt vtys ret true nd b).bind fun n1 => if c.wt (vtys.take nd) = true then some n1 else none
-  | _, nd, .for_ c step b =>
-    if optWt (vtys.take nd) none c = true ∧ step.isSimple = true then
-      (Stmt.wt vtys ret true nd b).bind fun n1 =>
-        (Stmt.wt vtys ret false nd step).bind fun _ => some n1
+  | _, _, nd, .while_ c b =>
+    if c.wt (vtys.take nd) = true ∧ b.labelFree = true then Stmt.wt vtys ret true true nd b else none
+  | _, _, nd, .dowhile b c =>
+    if b.labelFree = true then
+      (Stmt.wt vtys ret true true nd b).bind fun n1 =>
+        if c.wt (vtys.take nd) = true then some n1 else none
     else none
-  | lp, nd, .break_ => if lp then some nd else none
-  | lp, nd, .continue_ => if lp then some nd else none
+  | _, _, nd, .for_ c step b =>
+    if optWt (vtys.take nd) none c = true ∧ step.isSimple = true ∧ b.labelFree = true then
+      (Stmt.wt vtys ret true true nd b).bind fun n1 =>
+        (Stmt.wt vtys ret false false nd step).bind fun _ => some n1
+    else none
+  | lb, _, nd, .break_ => if lb then some nd else none
+  | _, lc, nd, .continue_ => if lc then some nd else none
+  | _, lc, nd, .switch_ e b =>
+    if e.wt (vtys.take nd) = true ∧ e.ty.promoted = true ∧ b.startsLabel = true ∧
+        ((caseVals b).map (Tree.caseKey e.ty.size (e.ty.signed true))).Nodup ∧
+        (caseVals b).all (· < 2 ^ 64) = true ∧ countDefault b ≤ 1 then
+      Stmt.wt vtys ret true lc nd b
+    else none
+  | _, _, nd, .case_ _ => some nd
+  | _, _, nd, .default_ => some nd
 
 def Func.wt (f : Func) : Bool :=
-  Stmt.wt f.vtys f.ret false f.params.length f.body == some f.vtys.length
+  f.body.labelFree && Stmt.wt f.vtys f.ret false false f.params.length f.body == some f.vtys.length
 
 def WT (f : Func) : Prop := f.wt = true
 
